@@ -76,6 +76,13 @@ const EVENT_FLAGS = {
   'capture-bind': [false, false, true], 'capture-catch': [true, false, true], 'capture-mut-bind': [false, true, true],
 }
 
+/** slot value names requested by the direct children of an element (what the element announces to the runtime) */
+function childSlotValueNames(children) {
+  const out = []
+  for (const c of children) for (const s of c.slotVals || []) if (!out.includes(dashToCamel(s.name))) out.push(dashToCamel(s.name))
+  return out.length ? out : undefined
+}
+
 export class Renderer {
   /** group: { files: {path: File}, scripts: {path: code} } */
   constructor(group, opts = {}) {
@@ -192,7 +199,7 @@ export class Renderer {
         let e2 = env
         if (n.slotVals && n.slotVals.length) e2 = env.push(...n.slotVals.map((s) => ({ name: s.as === undefined ? dashToCamel(s.name) : s.as, value: (this.opts.slotValues || {})[dashToCamel(s.name)], kind: 'slotval', slotValueName: dashToCamel(s.name) })))
         const { ch, slot, generics } = this.attrsToChannels(n, e2)
-        const el = { k: 'el', tag: n.tag, slot, ch, generics, dsv: n.slotVals && n.slotVals.length ? n.slotVals.map((s) => dashToCamel(s.name)) : undefined, children: this.renderNodes(n.children, e2, file) }
+        const el = { k: 'el', tag: n.tag, slot, ch, generics, dsv: childSlotValueNames(n.children), children: this.renderNodes(n.children, e2, file) }
         if (this.opts.onElement) this.opts.onElement(el, n, e2, file)
         out.push(el)
         return
